@@ -28,6 +28,13 @@ def find_witness(obl, budget_ms=8000):
     return json.loads(m.group(1))
 
 
+def find_any(form, budget_ms=5000):
+    """any failing clause of a form's contract on the real code (used when the verifier ran into its limit)"""
+    out = _run({"KOGE29_FORM": form, "KOGE29_CLAUSE": "any", "VERIF_SEED": os.environ.get("VERIF_SEED", "0"), "KOGE29_BUDGET_MS": str(budget_ms)})
+    m = re.search(r"^WITNESS (\{.*\})$", out, re.M)
+    return json.loads(m.group(1)) if m else None
+
+
 def replay(witness):
     out = _run({"KOGE29_REPLAY": json.dumps(witness)})
     return "\n".join(l for l in out.splitlines() if l.startswith("REPLAY") or l.startswith("  "))
@@ -44,5 +51,33 @@ def c10_bounded():
         return None, out[-2000:]
     fails = {}
     for mm in re.finditer(r"^C10-FAIL (\S+) (.*)$", out, re.M):
+        fails[mm.group(1)] = mm.group(2)
+    return int(m.group(1)), fails
+
+
+C16_CLAUSES = ["output_change_announced_with_exact_text", "message_format_and_non_decreasing_time_stamp", "last_announced_value_is_current_output", "ports_never_influence_each_other"]
+
+
+def c16_bounded():
+    out = _run({"KOGE29_C16": "1"}, test="native_c16_messages")
+    m = re.search(r"^C16-BOUNDED histories=(\d+) failures=(\d+)", out, re.M)
+    if not m:
+        return None, out[-2000:]
+    fails = {}
+    for mm in re.finditer(r"^C16-FAIL (\S+) (.*)$", out, re.M):
+        fails[mm.group(1)] = mm.group(2)
+    return int(m.group(1)), fails
+
+
+C17_CLAUSES = ["tcnt_counts_floor_elapsed_over_divisor", "flags_set_exactly_on_match_or_overflow", "one_request_per_enabled_event", "residual_is_elapsed_mod_divisor", "same_result_for_every_partition_of_the_elapsed_time"]
+
+
+def c17_bounded():
+    out = _run({"KOGE29_C17": "1", "VERIF_SEED": os.environ.get("VERIF_SEED", "0")}, test="native_c17_bounded")
+    m = re.search(r"^C17-BOUNDED cases=(\d+) failures=(\d+)", out, re.M)
+    if not m:
+        return None, out[-2000:]
+    fails = {}
+    for mm in re.finditer(r"^C17-FAIL (\S+) (.*)$", out, re.M):
         fails[mm.group(1)] = mm.group(2)
     return int(m.group(1)), fails
